@@ -76,7 +76,8 @@ func checkParser(c *checkCtx, prop string) {
 			continue
 		}
 		accepted++
-		s.goText = genUserGo(d, userOpts{bounds: bounds})
+		// per-rule result types in C03 always, elsewhere for every second grammar
+		s.goText = genUserGo(d, userOpts{bounds: bounds, typed: prop == "C03" || accepted%2 == 0})
 	}
 	ws.genAll()
 	ws.buildAll()
@@ -187,6 +188,8 @@ func checkParser(c *checkCtx, prop string) {
 		}
 		reqs = append(reqs, newReq("validate").i(id).i(len(j.s.dump.Terminals)))
 		refs = append(refs, ref{j, -1})
+		reqs = append(reqs, newReq("termok").i(id).i(len(j.s.dump.States)))
+		refs = append(refs, ref{j, -3})
 		for k, w := range j.inputs {
 			reqs = append(reqs, parseReq(id, bounds, true, 4*len(w)*8+400, w))
 			refs = append(refs, ref{j, k})
@@ -199,10 +202,22 @@ func checkParser(c *checkCtx, prop string) {
 	}
 	modelOut := map[*job][]string{}
 	valid := map[*job]bool{}
+	termChecked := 0
+	defer func() {
+		c.cov.Extra = mergeExtra(c.cov.Extra, map[string]any{"tables_passing_term_ok": termChecked})
+	}()
 	for i, a := range ans {
 		r := refs[i]
 		switch r.k {
 		case -2:
+		case -3:
+			termChecked++
+			if a.toks[0] != "1" {
+				c.addFinding(finding{Signature: "termination-condition-fails",
+					Desc:    "the emitted tables do not pass term_ok (Parse/TermCheck.v): some chain of reductions under one lookahead does not end within the fuel, so parse() is not shown to terminate on every input (" + a.raw() + ")",
+					Theorem: "term_ok tb nstates F = true (hypothesis of parse_terminates / parse_decides)", NoInput: true,
+					Replay:  map[string]any{"spec": r.j.s.loxText}})
+			}
 		case -1:
 			valid[r.j] = a.int() == 1
 			if !valid[r.j] {
